@@ -197,6 +197,42 @@ class Handles:
                                     continue
                                 yield ent, p, loc, tr, e
 
+    # ---- H5: a cancelled handle left stored, cancelled again later ------------------------------------------
+    def cancelled_kept(self):
+        """Yields (context, cancel event, location, later context, later cancel event): a path cancels the handle stored at a
+        location and neither clears / re-arms that location nor removes the owning entry from its registry, and another context
+        cancels the same location guarded by nothing stronger than "is not None" - cancel() of a cancelled call raises."""
+        cancels_at = {}
+        for tr in contexts(self.cat):
+            for e in tr.events:
+                if e.kind == "CANCEL":
+                    loc = self.handle_location(e.a["handle"], tr)
+                    if loc is not None and self.guarded(e, e.a["handle"]) != "active":
+                        cancels_at.setdefault(loc, []).append((tr, e))
+        seen = set()
+        for tr in contexts(self.cat):
+            if not tr.decode_ok or tr.path.exit_kind() == "raise":
+                continue
+            evs = tr.events
+            for i, e in enumerate(evs):
+                if e.kind != "CANCEL" or not isinstance(e.a["handle"], tuple) or e.a["handle"][0] != "attr":
+                    continue
+                h = e.a["handle"]
+                loc = self.handle_location(h, tr)
+                if loc is None or loc[0] == "win":
+                    continue        # window entries: their removal / re-arming is the business of the retry rules
+                later = evs[i + 1:]
+                renewed = any(x.kind == "SETATTR" and x.a["obj"] == h[1] and x.a["field"] == h[2] for x in later)
+                if renewed:
+                    continue
+                others = [(t2, e2) for t2, e2 in cancels_at.get(loc, []) if e2 is not e and (t2.kind == "LOSS" or t2 is not tr)]
+                # only a context that can follow: the loss of the connection always can
+                others = [(t2, e2) for t2, e2 in others if t2.kind == "LOSS"]
+                key = (e.file, e.line, loc)
+                if others and key not in seen:
+                    seen.add(key)
+                    yield tr, e, loc, others[0][0], others[0][1]
+
     # ---- R-LOSS ----------------------------------------------------------------------
     def loss_obligations(self):
         """For each loss path: (path-context, what, ok, event/None)."""
